@@ -1,12 +1,12 @@
 ----------------------------- MODULE Gen_C08 -----------------------------
 (* Mode B generator for C08: every sequence of rule kinds up to the bound x collect on/off
-   x (no correlation rule | a non-generating correlation rule over rule 1 at the end).   *)
+   x (no correlation rule | a non-generating | a generating correlation rule over rule 1 at the end).   *)
 EXTENDS Conversion, Json, IOUtils, TLC
 VARIABLE x
 Quick == IOEnv.VERIF_TIER = "quick"
 MaxRules == IF Quick THEN 3 ELSE 4
 Cases == {[kinds |-> k, collect |-> c, corr |-> co] :
-            k \in UNION {[1..n -> Kinds] : n \in 1..MaxRules}, c \in BOOLEAN, co \in {"none", "nogen"}}
+            k \in UNION {[1..n -> Kinds] : n \in 1..MaxRules}, c \in BOOLEAN, co \in {"none", "nogen", "gen"}}
 ASSUME LET S == SetToSeq(Cases) IN ndJsonSerialize(IOEnv.VERIF_OUT, [i \in 1..Len(S) |-> [id |-> i] @@ S[i]])
 Init == x = 0
 Next == UNCHANGED x
